@@ -105,8 +105,17 @@ def run(tier, seed):
             raise MachineryError('vacuous controller life-cycle run')
         cov['controller_histories_replayed'] = len(uniq2)
         cov['spec_negative_control'] += '; CtrlLife_asfound.cfg (set_data keeps the prior) refuted by TLC on PriorAgrees'
+        # counts and names of all fourteen reducible object classes after every fix / re-fix / release transition: the
+        # shared run of module FixParams (see C08), judged on its counts clause
+        from . import check_c08
+        from .cache import cached
+        fx = cached('fixparams', tier, seed, lambda: check_c08._compute(tier, seed))
+        for fails, cnt in fx['results']:
+            v.failures([f for f in fails if f['clause'] == 'CountsOK'])
+            v.count('fixparams_cases', cnt.get('cases', 0))
+        cov['fixparams_transitions_replayed'] = v.counters.get('fixparams_cases', 0)
         runs, uniq, res = reconfig(tier, seed)
-        runs, uniq = runs + runs2, uniq + uniq2
+        runs, uniq = runs + runs2 + fx['runs'], uniq + uniq2
         for fails, cnt in res:
             v.failures([f for f in fails if f['clause'] in RC_CLAUSES])
             v.merge_counters({'reconfig_' + k: n for k, n in cnt.items()})
